@@ -794,7 +794,24 @@ def r03_7(ctx: Ctx):
                 # reading the slot elsewhere (to call it later) is suspicious
                 par_call = any(isinstance(p, ast.Call) and p.func is c for p in body_walk(f.node))
                 if not par_call:
-                    obs.append(ctx.ob("R03.7", f, c, status=VIOLATION, detail=f"{f.short} takes the raw objective out of its FunctionProblem (`{norm(c)}`)"))
+                    # what happens to the function object: called / handed on (an uncounted invocation is possible), or only
+                    # inspected (`__name__`, `__module__`, a getattr of those)?
+                    from ..core import parents_map as _pm
+
+                    par_ = _pm(f.node)
+                    holder = par_.get(id(c))
+                    names = [t.id for t in holder.targets if isinstance(t, ast.Name)] if isinstance(holder, ast.Assign) and holder.value is c else []
+                    reads = [x for x in body_walk(f.node) if isinstance(x, ast.Name) and x.id in names and isinstance(x.ctx, ast.Load)] if names else [c]
+                    def inspected(x):
+                        q = par_.get(id(x))
+                        if isinstance(q, ast.Attribute) and q.attr.startswith("__"):
+                            return True
+                        return isinstance(q, ast.Call) and norm(q.func) in ("getattr", "hasattr", "callable", "repr", "str", "id", "type") and q.args and q.args[0] is x
+                    def used(x):
+                        q = par_.get(id(x))
+                        return (isinstance(q, ast.Call) and (q.func is x or x in q.args or any(k.value is x for k in q.keywords))) and not inspected(x)
+                    st_ = OK if reads and all(inspected(x) for x in reads) else VIOLATION if any(used(x) for x in reads) or not names and not inspected(c) else INCONCLUSIVE
+                    obs.append(ctx.ob("R03.7", f, c, status=st_, detail=f"{f.short} only inspects the objective's attributes" if st_ == OK else f"{f.short} takes the raw objective out of its FunctionProblem (`{norm(c)}`)" + (" and calls it / hands it on: an invocation no counter sees" if st_ == VIOLATION else ": cannot tell whether it is invoked")))
     if n == 0:
         raise AnalysisError("no invocation of fitness_function found")
     return obs
